@@ -203,7 +203,14 @@ func ruleUpdateInnerPairing(w *World, r *RuleResult) {
 				nMut++
 				ev := func(in ssa.Instruction) bool {
 					u, ok := in.(*ssa.Call)
-					if !ok || w.calleeName(u) != "(*BigInt).updateInner" {
+					if !ok {
+						return false
+					}
+					if w.calleeName(u) != "(*BigInt).updateInner" {
+						// a helper of the package that writes back on all its non-error returns
+						if oi, vi, isWB := w.writesBackHelper(callee(u)); isWB && oi < len(u.Common().Args) && vi < len(u.Common().Args) {
+							return u.Common().Args[oi] == owner && u.Common().Args[vi] == view
+						}
 						return false
 					}
 					return u.Common().Args[0] == owner && u.Common().Args[1] == view
@@ -279,13 +286,8 @@ func ruleNoNegativeZero(w *World, r *RuleResult) {
 			}
 			return types.Invalid
 		}
-		var pairs []int
-		for i := 0; i+1 < res.Len()-1; i++ {
-			if basicKind(i) == types.Uint64 && basicKind(i+1) == types.Bool {
-				pairs = append(pairs, i)
-			}
-		}
-		if len(pairs) == 0 || basicKind(res.Len()-1) != types.Bool {
+		pairList := inlinePairs(f.Signature)
+		if len(pairList) == 0 || basicKind(res.Len()-1) != types.Bool {
 			continue
 		}
 		key := name + " | sign of a zero result"
@@ -301,8 +303,8 @@ func ruleNoNegativeZero(w *World, r *RuleResult) {
 				continue
 			}
 			nret++
-			for _, pi := range pairs {
-				mag, neg := rt.Results[pi], rt.Results[pi+1]
+			for _, pr := range pairList {
+				mag, neg := rt.Results[pr[0]], rt.Results[pr[1]]
 				if k, isK := neg.(*ssa.Const); isK && !boolConst(k) {
 					continue
 				}
@@ -526,4 +528,83 @@ func (w *World) bigIntHasMethod(name string) bool {
 		return ms.Lookup(imp, name) != nil
 	}
 	return true
+}
+
+// writesBackHelper: h is an unexported function that calls
+// (*BigInt).updateInner(p_o, p_v) with two of its own parameters before every
+// return that does not report an error; returns their indices.
+func (w *World) writesBackHelper(h *ssa.Function) (int, int, bool) {
+	if h == nil || !w.inPkg(h) || (h.Object() != nil && h.Object().Exported()) || len(h.Blocks) == 0 {
+		return 0, 0, false
+	}
+	for _, u := range w.callsTo(h, "(*BigInt).updateInner") {
+		oi, vi := -1, -1
+		for i, p := range h.Params {
+			if u.Common().Args[0] == ssa.Value(p) {
+				oi = i
+			}
+			if u.Common().Args[1] == ssa.Value(p) {
+				vi = i
+			}
+		}
+		if oi < 0 || vi < 0 {
+			continue
+		}
+		all := true
+		for _, b := range h.Blocks {
+			rt, ok := b.Instrs[len(b.Instrs)-1].(*ssa.Return)
+			if !ok || w.isErrorReturn(rt) {
+				continue
+			}
+			if !seenBefore(rt, func(in ssa.Instruction) bool { return in == ssa.Instruction(u) }) {
+				all = false
+			}
+		}
+		if all {
+			return oi, vi, true
+		}
+	}
+	return 0, 0, false
+}
+
+// inlinePairs: the (magnitude uint64, neg bool) result pairs of an *Inline
+// helper: by name when the results are named (quoVal/quoNeg, remVal/remNeg in
+// whatever order they are listed), else by adjacency. The last result is ok.
+func inlinePairs(sig *types.Signature) [][2]int {
+	res := sig.Results()
+	kind := func(i int) types.BasicKind {
+		if b, ok := res.At(i).Type().Underlying().(*types.Basic); ok {
+			return b.Kind()
+		}
+		return types.Invalid
+	}
+	var out [][2]int
+	named := true
+	for i := 0; i < res.Len(); i++ {
+		if res.At(i).Name() == "" {
+			named = false
+		}
+	}
+	if named {
+		for i := 0; i < res.Len()-1; i++ {
+			if kind(i) != types.Uint64 {
+				continue
+			}
+			stem := strings.TrimSuffix(res.At(i).Name(), "Val")
+			for j := 0; j < res.Len()-1; j++ {
+				if kind(j) == types.Bool && strings.TrimSuffix(res.At(j).Name(), "Neg") == stem && res.At(j).Name() != stem {
+					out = append(out, [2]int{i, j})
+				}
+			}
+		}
+		if len(out) > 0 {
+			return out
+		}
+	}
+	for i := 0; i+1 < res.Len()-1; i++ {
+		if kind(i) == types.Uint64 && kind(i+1) == types.Bool {
+			out = append(out, [2]int{i, i + 1})
+		}
+	}
+	return out
 }
